@@ -333,7 +333,7 @@ class BreakNode(Node):
 
     def render_to_output(self, _context: RenderContext, _buffer: TextIO) -> int:
         """Render the node to the output buffer."""
-        raise BreakLoop("break")
+        raise BreakLoop("break", token=self.token)
 
 
 class ContinueNode(Node):
@@ -345,7 +345,7 @@ class ContinueNode(Node):
 
     def render_to_output(self, _context: RenderContext, _buffer: TextIO) -> int:
         """Render the node to the output buffer."""
-        raise ContinueLoop("continue")
+        raise ContinueLoop("continue", token=self.token)
 
 
 class BreakTag(Tag):
